@@ -157,7 +157,7 @@ template <class G> struct C16 {
               if (n <= 4) { std::vector<int> idx(n); for (int k = 0; k < n; ++k) idx[k] = k; while (std::next_permutation(idx.begin(), idx.end())) { std::vector<G> p; for (int k = 0; k < n; ++k) p.push_back(pts[idx[k]]); perms.push_back(p); } }
               else { std::vector<G> p(pts.rbegin(), pts.rend()); perms.push_back(p); for (int s = 1; s < n; s += std::max(1, n / 4)) { std::vector<G> q(pts); std::rotate(q.begin(), q.begin() + s, q.end()); perms.push_back(q); } }
               ref::Real worst = 0;
-              for (size_t p = 0; p < perms.size(); ++p) { G mp = call(r, perms[p]); worst = std::max(worst, dist(mp, Mm, lin)); }
+              for (size_t p = 0; p < perms.size(); ++p) { G mp = call(r, perms[p]); worst = vf::accmax(worst, dist(mp, Mm, lin)); }
               close(worst, 2 * tol * std::max((ref::Real)1, (r == FRIGHT ? vf::maxabs(g.Adj(g.inv(Mm))) : (ref::Real)1)), "mean_independent_of_order", key);
             }
             // equivariance
